@@ -1,0 +1,68 @@
+// Copyright 2020 Denis Bernard <db047h@gmail.com>. All rights reserved.
+// Use of this source code is governed by a BSD-style
+// license that can be found in the LICENSE file.
+
+//go:build verif
+// +build verif
+
+// Hooks for the external verification harness (build tag verif).
+// Nothing in this file is compiled into a normal build.
+
+package decimal
+
+// VerifMul returns x*y computed by dec.mul with z as (possibly reused) storage.
+func VerifMul(z, x, y []Word) []Word { return dec(z).mul(dec(x).norm(), dec(y).norm()) }
+
+// VerifSqr returns x*x computed by dec.sqr with z as storage.
+func VerifSqr(z, x []Word) []Word { return dec(z).sqr(dec(x).norm()) }
+
+// VerifDiv returns the quotient and remainder of u/v computed by dec.div,
+// with z and z2 as storage for the quotient and the remainder.
+func VerifDiv(z, z2, u, v []Word) (q, r []Word) {
+	return dec(z).div(dec(z2), dec(u).norm(), dec(v).norm())
+}
+
+// VerifSetThresholds sets the multiplication/squaring tuning thresholds and
+// returns the previous values.
+func VerifSetThresholds(karatsuba, basicSqr, karatsubaSqr int) (int, int, int) {
+	k, b, s := decKaratsubaThreshold, decBasicSqrThreshold, decKaratsubaSqrThreshold
+	decKaratsubaThreshold, decBasicSqrThreshold, decKaratsubaSqrThreshold = karatsuba, basicSqr, karatsubaSqr
+	return k, b, s
+}
+
+// VerifDivRecursiveThreshold is the (constant) divisor length from which division is recursive.
+const VerifDivRecursiveThreshold = divRecursiveThreshold
+
+// Kernels: index 0 is the implementation selected by the build (assembly on
+// amd64 unless decimal_pure_go is set), index 1 the portable Go version.
+var (
+	VerifVV = map[string][2]func(z, x, y []Word) Word{
+		"add10VV": {add10VV, add10VV_g},
+		"sub10VV": {sub10VV, sub10VV_g},
+	}
+	VerifVW = map[string][2]func(z, x []Word, y Word) Word{
+		"add10VW":     {add10VW, add10VW_g},
+		"sub10VW":     {sub10VW, sub10VW_g},
+		"addMul10VVW": {addMul10VVW, addMul10VVW_g},
+	}
+	VerifVU = map[string][2]func(z, x []Word, s uint) Word{
+		"shl10VU": {shl10VU, shl10VU_g},
+		"shr10VU": {shr10VU, shr10VU_g},
+	}
+	VerifVWW = map[string][2]func(z, x []Word, y, r Word) Word{
+		"mulAdd10VWW": {mulAdd10VWW, mulAdd10VWW_g},
+		"div10VWW":    {div10VWW, div10VWW_g},
+	}
+	VerifWW = map[string][2]func(x, y Word) (Word, Word){
+		"mul10WW": {mul10WW, mul10WW_g},
+		"div10W":  {div10W, div10W_g},
+	}
+	VerifWWW = map[string][2]func(x, y, z Word) (Word, Word){
+		"div10WW":     {div10WW, div10WW_g},
+		"mulAdd10WWW": {mulAdd10WWW_g, mulAdd10WWW_g},
+	}
+	VerifDivWVW = [2]func(z []Word, xn Word, x []Word, y Word) Word{divWVW, divWVW_g}
+)
+
+// VerifPow10 returns 10**n as a Word (n < DigitsPerWord).
+func VerifPow10(n uint) Word { return Word(pow10(n)) }
